@@ -32,16 +32,19 @@ Import ListNotations.
 Definition fun2core_preserves_typing_unguarded : Prop :=
   forall src p, Check.check src = COk p ->
   exists c, compile_prog p = Fun2Core.Ok c /\ wt_core c = true.
-(* the guarded form expected to hold: binders of each definition pairwise distinct and distinct from
-   its parameters (no shadowing, so the capture defect of fun2core cannot strike).  NOT PROVED: it is
-   hypothesis H_fun2core_wt of C12_pipeline_wt_partial and is evaluated on every run on the REAL
-   translation (modelrun wt-stages: wt_core + pre_check on the Rust output of every accepted program). *)
+(* the guarded form of round 1: binders of each definition pairwise distinct and distinct from
+   its parameters (no shadowing, so the capture defect of fun2core cannot strike).  It is hypothesis
+   H_fun2core_wt of C12_pipeline_wt_partial.  Round 2: FALSE as it stands (C12_fun2core_main_result_refuted:
+   a `main` of a non-integer type, and a call of `main`, are accepted and satisfy barendregt); PROVED inside
+   the boolean guard prog_tyguard (C12_fun2core_preserves_typing_fragment2 + C12_fun2core_total_fragment2 +
+   C12_fun2core_pre_check). *)
 Definition fun2core_preserves_typing : Prop :=
   forall src p, Check.check src = COk p -> barendregt p = true ->
   exists c, compile_prog p = Fun2Core.Ok c /\ wt_core c = true /\ pre_check c = true.
 
-(* Core -> focused Core (uniquify + focus).  Totality is PROVED (C12_focus_total_on_typed); the typing
-   of the output is hypothesis H_focus_wt of the composition, evaluated on every run. *)
+(* Core -> focused Core (uniquify + focus).  Totality is PROVED (C12_focus_total_on_typed).  The typing
+   of the output (hypothesis H_focus_wt of the round-1 compositions) is FALSE as it stands and PROVED with
+   two boolean side conditions (round 2: C12_focus_preserves_typing, C12_focus_preserves_typing_unguarded_refuted). *)
 Definition focus_preserves_typing : Prop :=
   forall c, wt_core c = true -> pre_check c = true ->
   exists f, focus_prog c = Backend.Ok f /\ wt_fs f = true /\ unique_binders f = true /\ ids_bounded f = true.
@@ -381,7 +384,9 @@ Print Assumptions C12_codegen_total_rv.
 (* The composition                                                                          *)
 (* ======================================================================================== *)
 
-(* THE PROPERTY, with the unproved links as hypotheses (their types say what is missing):
+(* THE PROPERTY as composed in round 1, with the then unproved links as hypotheses (round 2: all three links are
+   proved in guarded form and C12_pipeline_wt / C12_pipeline_wt_source below have no hypothesis of this kind; each of the
+   three hypotheses is false as it stands, so this theorem is kept for the record only):
      H_fun2core_wt = fun2core_preserves_typing (guarded by barendregt),
      H_focus_wt    = the typing half of focus_preserves_typing,
      H_shrink_wt   = the typing half of shrink_preserves_typing.
